@@ -81,7 +81,7 @@ def knn_cases(draw):
     vals = draw(st.lists(st.one_of(st.integers(-100, 100).map(float), gen.finite(-1e3, 1e3)), min_size=n, max_size=n))
     return dict(mode=mode, data=pts, values=vals, query=qs, k=draw(st.integers(1, n)), reduction=draw(st.sampled_from(list(REDS))),
                 dshape=draw(st.sampled_from(blocks.shape_options(n))), qshape=draw(st.sampled_from(blocks.shape_options(len(qs)))),
-                extra=draw(st.booleans()), orders=draw(build.orders_strategy()), container=draw(st.sampled_from(build.CONTAINERS)))
+                extra=draw(st.booleans()), orders=draw(build.orders_strategy()), container=draw(st.sampled_from(build.CONTAINERS)), int_data=draw(st.booleans()))
 
 
 def check_knn(case, ctx):
@@ -94,7 +94,8 @@ def check_knn(case, ctx):
     coords = (lay(d[:, 0], dshape), lay(d[:, 1], dshape)) + ((np.zeros(dshape),) if case["extra"] else ())
     kn = vd.KNeighbors(k=k, reduction=REDS[case["reduction"]]) if (k, case["reduction"]) != (1, "mean") else vd.KNeighbors()
     P = lambda a: build.present(a, case.get("container"))  # noqa: E731
-    kn.fit(tuple(P(c) for c in coords), P(lay(vals, dshape)))
+    vals_arr = lay(vals, dshape, "int64" if case.get("int_data") and np.all(vals == np.round(vals)) else "float64")
+    kn.fit(tuple(P(c) for c in coords), P(vals_arr))
     qcoords = (P(lay(q[:, 0], qshape)), P(lay(q[:, 1], qshape)))
     pred = np.asarray(kn.predict(qcoords))
     ctx.check(pred.shape == tuple(qshape), "prediction shape %s, query shape %s", pred.shape, tuple(qshape))
